@@ -172,6 +172,11 @@ def sig(c, r):
         s["t"] = c.get("t", "")
         if "exp" in c and isinstance(c["exp"], dict) and "idx" in c["exp"]:
             s["exp_nidx0"] = len(c["exp"]["idx"]) == 0
+        elif c.get("rec") and c["op"] == "render":
+            s["exp_nidx0"] = len(c["g1"]["idx"]) == 0
+        elif c.get("rec") and c["op"] == "render2":      # no path i -> k -> l at all
+            p2 = c["g2"]["ptr"]
+            s["exp_nidx0"] = all(p2[k] == p2[k + 1] for k in c["g1"]["idx"])
         if c["op"] == "compadj":
             s["first_empty"] = c.get("first_empty", False)
         if r.get("sub"):
